@@ -8,6 +8,23 @@ if os.path.exists("/tmp/w/suite_results.txt"):
     for l in open("/tmp/w/suite_results.txt"):
         p = l.split()
         suite[p[0]] = " ".join(p[1:])
+MISSED_FIRST = {
+ "C01-1": "missed at first; C01 gained the oracle 'a request shorter than its mandatory fields must not get a success response'",
+ "C27-2": "missed at first; C27 gained a boundary-value family for LL_CONNECTION_PARAM_REQ / LL_PHY_UPDATE_IND",
+ "C15-1": "missed at first; C15 world gained the 'new connection' event (reset_pdu_buffer on the same object)",
+ "C16-1": "missed at first; C15/C16 world gained new non-empty PDUs with reserved LLID 0",
+ "C19-1": "missed at first; C19 reference now lets every start fragment (also passed through / too short) abort the SDU in progress, deep alphabet extended",
+ "C25-2": "missed at first; C25 gained change_advertising<>() between scheduling a PDU and the answer (all ordered type pairs)",
+ "C02-2": "missed at first; C02 gained a max_mtu_size<512> configuration with 250..300 octet values and client MTUs 255..260, 512 (this also exposed a genuine 8 bit size wrap, repaired)",
+ "C04-1": "missed at first; C04 gained nested include configurations",
+ "C04-2": "missed at first; C04 gained services combining attribute_handle<> with include_service<>",
+ "C32-2": "missed at first (needs two pairings, depth 12 > quick bound 10); the SM world gained scripted prefixes as additional start states",
+ "C33-2": "missed at first (hidden behind a C32 failure in the same step); reference goes idle whenever Pairing Failed had to be answered, key probe judged against idle",
+ "C13-2": "missed at first (plain bool / bit-field state cannot be split by the byte hook); C13 gained the instruction-level interrupt engine (harness/C13_singlestep.cpp)",
+ "C07-2": "missed at first; C07 world gained a requires_encryption write-handler characteristic and a protected CCCD",
+ "C05-1": "missed at first; C05 reference now treats may_require_encryption as transparent (nearest explicit level decides) and judges those 7 placements",
+ "C06-2": "missed at first; C06 gained Read Blob / Prepare Write offsets >= 256 and a 300 octet value",
+}
 res = {}
 for log in sys.argv[1:]:
     cur = None
@@ -34,6 +51,7 @@ for d, r in sorted(res.items()):
     m["demo_by_integrator"] = r["demo"]
     m["detected"] = r["verdict"] == "FAIL"
     m["detected_by"] = ("bin/check %s --tier %s: " % (r["prop"], r.get("tier")) + ", ".join(sorted(set(r["sigs"]))[:4])) if r["sigs"] else ("NOT detected by the %s tier" % r.get("tier"))
+    if sid in MISSED_FIRST: m["history"] = MISSED_FIRST[sid]
     m["ran"] = ["tools/try_seed.sh <dir> (demo on clean and patched worktree, bin/check with the patch applied, patch undone)", "tools: ninja + ctest of the repository suite in a scratch worktree with the patch applied alone"]
     json.dump(m, open(os.path.join(dst, "meta.json"), "w"), indent=1)
     print(sid, r["verdict"], m["suite"])
